@@ -91,7 +91,7 @@ Definition cfg_expect (tbl : re_table) (src tgt rt : list matcher) (sls : list (
   else if String.eqb key "S.tgt" then map S lss
   else if String.eqb key "T.tgt" then map T lss
   else if String.eqb key "mutes" then map (fun l => T l && S sls && negb (S l && T sls)) lss
-  else if String.eqb key "route" then map (ms_matches re rt) lss
+  else if String.eqb key "route" || String.eqb key "route2" || String.eqb key "route3" then map (ms_matches re rt) lss
   else [].
 
 Definition show_case (c : case) : shown :=
